@@ -169,8 +169,9 @@ def find_sub(node, name):
     return None
 
 
-UNSAFE_CMD_FLAGS = {"args_conflicts_with_subcommands", "allow_external_subcommands",
-                    "allow_missing_positional", "multicall"}
+UNSAFE_CMD_FLAGS = {"allow_external_subcommands", "allow_missing_positional", "multicall"}
+# `args_conflicts_with_subcommands` is per level and so is the parser's "an argument was seen" flag: at a level that sets
+# it a subcommand name is recognised as long as no argument OF THAT LEVEL came before it (after one, the scan gives up).
 # `subcommand_precedence_over_arg` is a per-command setting (it is not propagated): at a level that sets it a word naming a
 # subcommand is that subcommand even while a multiple positional is being filled; the scan follows the level it is at.
 
@@ -185,6 +186,7 @@ def scan_prefix(root, words):
     n = len(words)
     in_pos = False      # a multiple positional is being filled (the parser's ParseState::Pos)
     weak = False        # ... has happened: only soundness is judged from then on
+    seen_arg = False    # an option / flag / positional value of the CURRENT level was read (reset on descent)
     while i < n:
         if level["flags"] & UNSAFE_CMD_FLAGS:
             return None
@@ -197,6 +199,7 @@ def scan_prefix(root, words):
             return None
         if w.startswith(b"-"):
             in_pos = False
+            seen_arg = True
         if w.startswith(b"--"):
             body = w[2:]
             name, eq, _val = body.partition(b"=")
@@ -244,8 +247,11 @@ def scan_prefix(root, words):
             i += 2 if consumed_next else 1
             continue
         s = find_sub(level, w)
+        if s is not None and seen_arg and "args_conflicts_with_subcommands" in level["flags"]:
+            return None
         if s is not None and (not in_pos or "subcommand_precedence_over_arg" in level["flags"]):
             in_pos = False
+            seen_arg = False
             level = s
             pc = 0
             i += 1
@@ -257,6 +263,7 @@ def scan_prefix(root, words):
             # that names a subcommand (Parser::get_matches_with looks for subcommands only outside Pos)
             in_pos = True
             weak = True
+            seen_arg = True
             i += 1
             continue
         # a positional that takes several values or appends is "multiple" for the parser: while it is being
@@ -265,9 +272,12 @@ def scan_prefix(root, words):
                 or pos[0]["flags"] & {"last", "tva", "term", "append"}:
             return None
         pc += 1
+        seen_arg = True
         i += 1
     if level["flags"] & UNSAFE_CMD_FLAGS:
         return None
+    if seen_arg and "args_conflicts_with_subcommands" in level["flags"]:
+        return None       # subcommand names are no valid continuation here; options still are, but keep it simple
     return level, weak
 
 
@@ -362,6 +372,48 @@ def accept_oracle(case, impl):
     # ---- hidden only when nothing visible matches
     if any_visible and any(h for _, h in cands):
         return "hidden candidates offered although a visible one matches"
+    # the same rule read off the DEFINITION (a candidate's own hide flag is what the engine claims): a spelling that is
+    # hidden by definition -- a hidden argument/subcommand, or an alias that is not a visible alias -- may be offered only
+    # when no candidate with a visible spelling is (seeded change seed2/C18-3: the hide flag of alias candidates was lost)
+    def def_hidden(v, cid):
+        if cid is None:
+            return None
+        if cid.startswith(b"arg::"):
+            own = [a for a in level["args"] if a["id"] == cid[5:]]
+            if not own:
+                return None
+            a = own[0]
+            if a["hidden"]:
+                return True
+            if v.startswith(b"--"):
+                nm = v[2:].split(b"=")[0]
+                if nm in a.get("l", []) or nm in a.get("va", []):
+                    return False
+                return True if nm in a.get("aa", []) else None
+            if v.startswith(b"-") and len(v) >= 2:
+                try:
+                    ch = v.decode("utf-8")[-1]
+                except UnicodeDecodeError:
+                    return None
+                if ch in a.get("s", []) or ch in a.get("vsa", []):
+                    return False
+                return True if ch in a.get("asa", []) else None
+            return None
+        if cid.startswith(b"command::"):
+            sub = find_sub(level, v)
+            if sub is None:
+                return None
+            if sub["hidden"]:
+                return True
+            if v == sub["name"] or v in sub["va"]:
+                return False
+            return True
+        return None
+    dh = [(v, def_hidden(v, cid)) for v, _ in cands for cid in ids.get(v, [None])]
+    if any(x is False for _, x in dh):
+        bad = [v for v, x in dh if x is True]
+        if bad:
+            return "spelling %r is hidden by definition but offered although a visible spelling matches" % bad[0]
     # ---- completeness: visible options / subcommands with a spelling extending the (well-formed) word
     if weak:
         return None
@@ -647,6 +699,28 @@ def precedence_commands():
     return out
 
 
+def gen_argsconflict(mode):
+    """args_conflicts_with_subcommands on a middle level, arguments given on the OUTER level before it (seeded change
+    seed2/C18-1: the engine's 'an argument was seen' flag must start afresh in every subcommand, as the parser's does)"""
+    def arg(id_, *items):
+        return "(arg %s%s)" % (h(id_), "".join(" " + x for x in items))
+    out = []
+    for root_s in (False, True):
+        for mid_s in (False, True):
+            leaf = "(sub (cmd %s %s))" % (h(b"add"), arg(b"fetch", "(long %s)" % h(b"fetch"), "(action settrue)"))
+            mid = "(sub (cmd %s%s %s %s))" % (h(b"remote"), " (set args_conflicts_with_subcommands)" if mid_s else "",
+                                            arg(b"all", "(long %s)" % h(b"all"), "(short %d)" % ord("a"), "(action settrue)"), leaf)
+            root = "(cmd %s%s %s %s %s)" % (h(b"p"), " (set args_conflicts_with_subcommands)" if root_s else "",
+                                         arg(b"verbose", "(long %s)" % h(b"verbose"), "(short %d)" % ord("v"), "(action settrue)"),
+                                         arg(b"cfg", "(long %s)" % h(b"cfg"), "(action set)"), mid)
+            lines = [[b"--verbose", b"remote", b"add"], [b"remote", b"add"], [b"-v", b"remote"], [b"--cfg", b"x", b"remote", b"add"],
+                     [b"remote", b"--all"], [b"remote"], [b"--verbose"], [b"--cfg=x", b"remote", b"add", b"--fetch"]]
+            for ln in lines:
+                for w in (b"", b"-", b"--", b"--f", b"--a", b"a", b"r"):
+                    out.append(case_line(mode, root, [b"prog"] + ln + [w], len(ln) + 1))
+    return out
+
+
 def gen_precedence(mode):
     out = []
     lines = [[b"run", b"a", b"build"], [b"run", b"build"], [b"a", b"run"], [b"a", b"run", b"b", b"build"],
@@ -741,11 +815,11 @@ def coverage(cases, tag):
 def streams(tier, rng):
     quick = tier == "quick"
     dyn_cases = gen_random(rng, 120 if quick else 1500, 3, "dyn")
-    st_cases = gen_states(rng, tier, "dyn", 2 if quick else 3, 400 if quick else 6000) + gen_precedence("dyn")
+    st_cases = gen_states(rng, tier, "dyn", 2 if quick else 3, 400 if quick else 6000) + gen_precedence("dyn") + gen_argsconflict("dyn")
     acc_cases = gen_random(rng, 60 if quick else 500, 2, "dynaccept", conventional=False) \
         + gen_random(rng, 80 if quick else 700, 2, "dynaccept", conventional=True) \
         + gen_states(rng, tier, "dynaccept", 1 if quick else 2, 250 if quick else 3000) \
-        + gen_pending("dynaccept") + gen_precedence("dynaccept")
+        + gen_pending("dynaccept") + gen_precedence("dynaccept") + gen_argsconflict("dynaccept")
     return [
         Stream("dyn", dyn_cases, oracle=total_oracle, area="dynamic", project=project, nontrivial=nontrivial,
                describe={"state x word-shape": coverage(dyn_cases, "dyn")}),
